@@ -271,7 +271,17 @@ def cases(spec, ctx):
             while glen // (ng + nf) < 12:
                 glen *= 2
             cs = _collection(rng, glen, ng, nf, layout)
-            yield {"kind": kind, "flavour": FLAVOURS[(k + k // 8) % 2], "update_translations": bool((k // 2 + k // 16) % 2) or kind == "indwriter", "layout": layout,
+            legacy = False
+            if kind == "export" and k % 9 == 4:
+                # free-form qualifiers that reuse identifier keys with OTHER values (a legacy accession kept as a qualifier): the
+                # records must still carry the transcript's own identifiers (set union).  Judged by the independent reader only.
+                legacy = True
+                for g in cs["genes"]:
+                    for t in g["transcripts"]:
+                        t["qualifiers"] = dict(t.get("qualifiers") or {}, transcript_id=["legacy-" + t["transcript_id"]])
+                        if t.get("cds") and t.get("protein_id"):
+                            t["qualifiers"]["protein_id"] = ["old-" + t["protein_id"]]
+            yield {"legacy_quals": legacy, "kind": kind, "flavour": FLAVOURS[(k + k // 8) % 2], "update_translations": bool((k // 2 + k // 16) % 2) or kind == "indwriter", "layout": layout,
                    "glen": glen, "gseed": rng.randrange(1 << 30), "nfrac": 0.04 if rng.random() < 0.08 else 0.0,
                    "stale": rng.random() < 0.15, "spec": cs, "force_strand": rng.random() < 0.5, "iw": _iw_opts(rng)}
     # ---- scale (own stream): one gene of 17..60 exons on 1.5..3 kb, both flavours, export and independent-writer legs -------------
@@ -727,6 +737,9 @@ def run_case(case, ctx):
               exc=repr(exc_b)[:200] if exc_b else None,
               first_difference=next(((a, b) for a, b in zip(text.split("\n"), (text_b or "").split("\n")) if a != b), None) if exc_b is None else None)
     _independent_leg(case, ctx, text, srcs, genome)
+    if case.get("legacy_quals"):
+        ctx.bump("legacy-identifier-qualifiers(independent-reader-only)")
+        return
     _reader_leg(case, ctx, text, srcs, "lib", "/codon_start=" in text)
     # ---- second generation: what BioCantor read back is written again; the independent reader finds the same records (type, parts,
     # strand) with the same identifier qualifiers in the second file as in the first (for fully identified eukaryotic models) --------
